@@ -47,8 +47,10 @@ def run(run_, ctx):
     # order, loops vs try_for_each do not change them
     import summ2
     ren = glue.renames(F, pc, glue.load2("A"))
-    ser = {summ.fn_key(f): f for f in glue.fns_of_group(pc, "ser_crc")}
-    de = {summ.fn_key(f): f for f in glue.fns_of_group(pc, "de_crc")}
+    # (keys without lifetime names: `impl<'a, B> .. for CrcModifier<'a, B, u8>` and `.. for CrcModifier<'_, B, u8>` are the same impl)
+    nolt = lambda k: re.sub(r"'\w+, ", "", k)
+    ser = {nolt(summ.fn_key(f)): f for f in glue.fns_of_group(pc, "ser_crc")}
+    de = {nolt(summ.fn_key(f)): f for f in glue.fns_of_group(pc, "de_crc")}
 
     def outs(f):
         return summ2.summarize(F, f, renames=ren)["outcomes"]
@@ -57,8 +59,8 @@ def run(run_, ctx):
         body, ret = o["text"].rsplit(" => ", 1)
         return ([] if body == "-" else body.split("; ")), ret
     for w, nb in WIDTHS.items():
-        kf = "<ser::flavors::crc::CrcModifier<'a, B, %s> as Flavor>::finalize" % w
-        kp = "<ser::flavors::crc::CrcModifier<'a, B, %s> as Flavor>::try_push" % w
+        kf = "<ser::flavors::crc::CrcModifier<B, %s> as Flavor>::finalize" % w
+        kp = "<ser::flavors::crc::CrcModifier<B, %s> as Flavor>::try_push" % w
         probs = []
         if kf in ser:
             full = [o for o in outs(ser[kf]) if re.search(r"=> Result::Ok\(okval\(#\d+\)\)$", o["text"])]
@@ -92,7 +94,7 @@ def run(run_, ctx):
                     probs.append("try_extend override forwards bytes that the digest does not cover")
         run_.check(not probs, "SX", "ser width %s" % w, probs[0] if probs else "digest covers forwarded bytes; %d LE checksum bytes; inner finalize last" % nb, found=probs)
         # de side
-        kfd = "<de::flavors::crc::CrcModifier<'de, B, %s> as Flavor>::finalize" % w
+        kfd = "<de::flavors::crc::CrcModifier<B, %s> as Flavor>::finalize" % w
         probs = []
         if kfd in de:
             os_ = outs(de[kfd])
@@ -115,7 +117,7 @@ def run(run_, ctx):
         else:
             probs.append("finalize not found")
         for nm, arg in (("pop", "&{[okval(#1)]}"), ("try_take_n", "okval(#1)")):
-            k = "<de::flavors::crc::CrcModifier<'de, B, %s> as Flavor>::%s" % (w, nm)
+            k = "<de::flavors::crc::CrcModifier<B, %s> as Flavor>::%s" % (w, nm)
             if k not in de:
                 probs.append("%s not found" % nm)
                 continue
